@@ -34,8 +34,9 @@ CONSTANTS Hosts,       \* sequence of hosts
           PerCont,     \* path indexes whose data differs per container (endpoint host:port)
           MaxExpire,   \* bound on service failures (session expiry or crash)
           MaxKill,     \* bound on administrator kill_node calls
-          MaxFire,     \* bound on the number of retries one call / expiry triggers
           MaxPad,      \* generator only: padding steps after quiescence
+          SymFirst,    \* TRUE: the first container starts on the first host (the hosts
+                       \* are interchangeable: halves the exhaustive search)
           Defects
 
 VARIABLE st
@@ -74,6 +75,7 @@ InitSt(S) ==
    claimed |-> [h \in HostSet(S) |-> {}],         \* <<p, c>>: c registered p, node still there
    order   |-> <<>>,                              \* containers in submission order
    placed  |-> [h \in HostSet(S) |-> {}],         \* instances ever placed on the host
+   where   |-> [c \in ContSet(S) |-> ""],         \* host a container was started on
    linger  |-> {},                                \* sessions of crashed services, not yet expired
    nexp    |-> 0,
    nkill   |-> 0,
@@ -104,6 +106,7 @@ SubmitDo(S, st_, h, c) ==
               !.queue[h] = Append(@, <<"create", c>>),
               !.order = Append(@, c),
               !.placed[h] = @ \cup {S.inst[c]},
+              !.where[c] = h,
               !.last = NoLast]
 
 CanFinish(S, st_, h, c) == st_.pc[h].ph # "down" /\ c \in st_.active[h]
@@ -163,8 +166,9 @@ CurPath(S, st_, h) ==
 
 CurData(S, st_, h) == LET pc == st_.pc[h] IN S.data[h][pc.c][pc.idx]
 
-(* <<h2, c2>> of the data watches set on p *)
-Watchers(st_, p) == {<<w.h, w.c>> : w \in {x \in st_.watches : x.p = p}}
+(* containers whose request set a data watch on p (a container runs on one    *)
+(* host and its request has at most one watch at a time)                      *)
+Watchers(st_, p) == {w.c : w \in {x \in st_.watches : x.p = p}}
 
 (* what the call is and how ZooKeeper answers it: [op, path, res] *)
 CallDesc(S, st_, h) ==
@@ -179,12 +183,13 @@ CallDesc(S, st_, h) ==
     [] pc.ph = "dkids"  -> [op |-> "get_children", path |-> p, res |-> IF ex THEN "ok" ELSE "NoNode"]
     [] pc.ph = "ddel"   -> [op |-> "delete", path |-> p, res |-> IF ex THEN "ok" ELSE "NoNode"]
 
-(* retry_request calls caused by the call, in every order they may arrive in  *)
-(* (watch callbacks of one path are dispatched in no particular order).       *)
+(* retry_request calls caused by the call (named by container), in every      *)
+(* order they may arrive in (watch callbacks of one path are dispatched in no *)
+(* particular order).                                                         *)
 FireOrders(S, st_, h) ==
   LET pc == st_.pc[h]
       p == CurPath(S, st_, h) IN
-  IF pc.ph \in {"get", "watch"} /\ ~HasNode(st_, p) THEN {<< <<h, pc.c>> >>}
+  IF pc.ph \in {"get", "watch"} /\ ~HasNode(st_, p) THEN {<<pc.c>>}
   ELSE IF pc.ph = "ddel" /\ HasNode(st_, p) THEN Orders(Watchers(st_, p))
   ELSE {<<>>}
 
@@ -193,12 +198,12 @@ FireOrders(S, st_, h) ==
 RECURSIVE Touches(_, _, _)
 Touches(st_, h, ord) ==
   IF ord = <<>> THEN <<>>
-  ELSE (IF Head(ord)[1] = h /\ Head(ord)[2] \in st_.active[h]
-        THEN << <<"create", Head(ord)[2]>> >> ELSE <<>>) \o Touches(st_, h, Tail(ord))
+  ELSE (IF st_.where[Head(ord)] = h /\ Head(ord) \in st_.active[h]
+        THEN << <<"create", Head(ord)>> >> ELSE <<>>) \o Touches(st_, h, Tail(ord))
 
 Fire(S, st_, ord) ==
   [st_ EXCEPT !.queue = [h \in HostSet(S) |-> st_.queue[h] \o Touches(st_, h, ord)],
-              !.watches = {w \in @ : <<w.h, w.c>> \notin Range(ord)}]
+              !.watches = {w \in @ : w.c \notin Range(ord)}]
 
 (* after the current path of a create request is done (registered)            *)
 Registered(S, st_, h) ==
@@ -271,7 +276,7 @@ CallDo(S, st_, h, ord) ==
 Gone(st_, h) == {p \in DOMAIN st_.nodes : st_.nodes[p].o = st_.sess[h]}
 
 ExpireFired(st_, h) ==
-  UNION {{f \in Watchers(st_, p) : f[1] # h} : p \in Gone(st_, h)}
+  UNION {{c \in Watchers(st_, p) : st_.where[c] # h} : p \in Gone(st_, h)}
 
 CanExpire(S, st_, h, word) ==
   /\ st_.nexp < MaxExpire
@@ -366,7 +371,9 @@ Scn == [hosts |-> Hosts, conts |-> Conts, inst |-> InstOf, paths |-> PathsOf,
 
 Init == st = InitSt(Scn)
 
-Submit(h, c) == CanSubmit(Scn, st, h, c) /\ st' = SubmitDo(Scn, st, h, c)
+Submit(h, c) == /\ CanSubmit(Scn, st, h, c)
+                /\ (SymFirst /\ st.order = <<>> => h = Hosts[1])
+                /\ st' = SubmitDo(Scn, st, h, c)
 Finish(h, c) == CanFinish(Scn, st, h, c) /\ st' = FinishDo(Scn, st, h, c)
 Begin(h) == CanBegin(Scn, st, h) /\ st' = BeginDo(Scn, st, h)
 Call(h, ord) == InCall(st, h) /\ ord \in FireOrders(Scn, st, h) /\ st' = CallDo(Scn, st, h, ord)
@@ -380,10 +387,9 @@ Pad(n) == Quiescent(Scn, st) /\ st.pad < MaxPad /\ n = st.pad + 1
           /\ st' = [st EXCEPT !.pad = n, !.last = NoLast]
 
 (* Parameters must range over constant sets for TLC to print them in the      *)
-(* action labels the schedule reader uses; FireBound says the bound is wide   *)
-(* enough.                                                                    *)
-FireSeqs == UNION {Orders(X) : X \in {Y \in SUBSET (Range(Hosts) \X Range(Conts)) : Cardinality(Y) <= MaxFire}}
+(* action labels the schedule reader uses.                                    *)
 ContSeqs == UNION {Orders(X) : X \in SUBSET Range(Conts)}
+FireSeqs == ContSeqs
 
 Next ==
   \/ \E h \in Range(Hosts), c \in Range(Conts) : Submit(h, c)
@@ -442,11 +448,6 @@ OwnOnly == st.last.rk = "delete" /\ st.last.w.op = "delete" => st.last.regc = st
 NewerKept == ~st.last.stole
 
 (* sanity of the model itself: a request never finds its own node missing     *)
-(* (MaxKill = 0);                                                             *)
-(* never more simultaneous retries than the labels can carry                  *)
+(* (MaxKill = 0)                                                              *)
 NoError == \A h \in Range(Hosts) : st.pc[h].res # "error"
-FireBound == /\ \A p \in DOMAIN st.nodes : Cardinality(Watchers(st, p)) <= MaxFire
-             /\ \A h \in Range(Hosts) : Cardinality(ExpireFired(st, h)) <= MaxFire
-             /\ \A h \in Range(Hosts) : Cardinality(FiredOn(st, KillSet(Scn, st, h))) <= MaxFire
-             /\ \A s \in st.linger : Cardinality(FiredOn(st, SessNodes(st, s))) <= MaxFire
 =============================================================================
